@@ -63,7 +63,10 @@ def describe(var):
 def run_group(g):
     from scippneutron.conversion import beamline as bl
     res = {'id': g['id']}
-    b1 = vec(g['b1'], g['b1_unit'])
+    if g.get('b1s'):     # a per-pixel incident beam (dim 'det', zipped with the scattered beams)
+        b1 = sc.vectors(dims=['det'], values=np.array([[fh(c) for c in v] for v in g['b1s']]), unit=g['b1_unit'])
+    else:
+        b1 = vec(g['b1'], g['b1_unit'])
     gr = vec(g['g'], g['g_unit'])
     layout = g['layout']
     nb, nw = len(g['b2']), len(g['wl'])
@@ -93,7 +96,7 @@ def run_group(g):
     # operands exactly as stored
     wl_dense = wl.bins.constituents['data'] if wl.bins is not None else wl
     res['stored'] = {
-        'b1': {'unit': unit_info(b1.unit), 'values': [exact(c) for c in b1.values]},
+        'b1': {'unit': unit_info(b1.unit), 'values': [exact(c) for c in np.asarray(b1.values).reshape(-1)]},
         'g': {'unit': unit_info(gr.unit), 'values': [exact(c) for c in gr.values]},
         'b2': {'unit': unit_info(b2.unit), 'values': [[exact(c) for c in row] for row in np.asarray(b2.values).reshape(-1, 3)]},
         'wl': {'unit': unit_info(wl_dense.unit), 'dtype': str(wl_dense.dtype),
